@@ -232,6 +232,16 @@ void OverrideStats(std::uint32_t fibers, std::uint64_t switches, std::uint64_t s
 // payload cells written before a fulfilment and read after observing it, and the fields of Tracked.
 void RaceRead(const void* addr, std::size_t size) noexcept;
 void RaceWrite(const void* addr, std::size_t size) noexcept;
+// Call right after a blocking library call (Get, Wait, ...) returned: the frames that call used are dead, the caller now
+// reuses that stack. In the race build this tells the happens-before engine that the calling fiber writes the region, so
+// a completion that still touches the stack event of the returned call shows up as an unordered access.
+__attribute__((noinline)) inline void ReuseDeadFrames() noexcept {
+  volatile unsigned char buf[3072];
+  for (std::size_t i = 0; i < sizeof buf; i += 64) {
+    buf[i] = 0x5C;
+  }
+  RaceWrite(const_cast<unsigned char*>(buf), sizeof buf);
+}
 
 int CounterId(const char* name);  // registers a named counter (probe_* / fault_* / stat_*), returns its index
 void CounterAdd(int id, std::uint64_t n = 1) noexcept;
